@@ -50,6 +50,10 @@ def run_all(selector, tier="quick"):
             continue
         for i in range(len(c.instances)):
             jobs.append((qn, i))
+    # long single instances first, so that they overlap with the many short ones
+    heavy = ("_special_constraints_le_zero", "add_constraint_ne_zero", "add_constraint_le_zero", ".normalize",
+             "_solve_bruteforce", "_special_constraints_eq_zero", "add_constraint_ge_zero", "add_constraint_lt_zero")
+    jobs.sort(key=lambda j: min([i for i, h in enumerate(heavy) if h in j[0]] or [len(heavy)]))
     results = []
     if jobs:
         ctx = mp.get_context("fork")
